@@ -10,9 +10,9 @@ import lockstep
 from core import Multi, Obj, pyval, show, show_outcome
 
 PID = "C19"
-GEN = ["InputCheck", "ConfigInter", "ConfigFile", "ConfigTop"]
-CONE = ["Base/Dec.v", "Base/PyLib.v", "Base/Tac.v", "Proofs/C19Proofs.v"]
-IMPORTS = ["Base.Dec", "Base.PyLib", "Base.Show", "Gen.InputCheck", "Gen.ConfigInter", "Gen.ConfigFile", "Gen.ConfigTop"]
+GEN = ["InputCheck", "ConfigInter", "ConfigFile", "ConfigTop", "BaseExec"]
+CONE = ["Base/Dec.v", "Base/PyLib.v", "Base/Tac.v", "Proofs/DictFacts.v", "Proofs/C19Proofs.v"]
+IMPORTS = ["Base.Dec", "Base.PyLib", "Base.Show", "Gen.InputCheck", "Gen.ConfigInter", "Gen.ConfigFile", "Gen.ConfigTop", "Gen.BaseExec"]
 BACKENDS = ["local", "local", "local", "slurm_allocation", "flux_allocation", "slurm_submission", "flux_submission", "bogus"]
 PARAMS = ["max_workers", "backend", "cache_directory", "max_cores", "resource_dict", "flux_executor", "flux_executor_pmi_mode",
           "flux_executor_nesting", "pysqa_config_directory", "hostname_localhost", "block_allocation", "init_function",
@@ -140,6 +140,8 @@ def trigger(cfg, call_res):
             return "D14a"
         return None
     ccores = call_res.get("cores")
+    if (not cfg.get("disable_dependencies", False)) and ccores is not None and mc is not None and ccores > mc:
+        return None        # ExecutorWithDependencies carries _max_cores: submit() has to refuse this request
     if ccores is None or (ccores == 1 and cores >= 1):
         ccores = cores
     slots = ccores * call_res.get("threads_per_core", rd.get("threads_per_core", 1) if be != "local" else 1)
@@ -164,6 +166,24 @@ def build_cases(res):
         cfg = gen_config(rng)
         py = show_outcome(lambda: real_new(cfg))
         cases.append(("Executor.__new__", {k: (repr(v) if isinstance(v, Obj) else v) for k, v in cfg.items()}, coq_new(cfg), py, None))
+    be_mod = importlib.import_module("executorlib.base.executor")
+    for _ in range(n // 2):
+        mc = rng.choice([None, 0, 1, 2, 4])
+        rd = rng.choice([{}, {"cores": rng.randint(0, 5)}, {"cores": rng.randint(0, 5), "cwd": "/x"}, {"threads_per_core": 2}])
+
+        def call_submit():
+            ex = be_mod.ExecutorBase.__new__(be_mod.ExecutorBase)
+            ex._max_cores = mc
+            ex._future_queue = type("Q", (), {"put": lambda self, item: None})()
+            ex.submit(len, [1], resource_dict=dict(rd))
+            return (dict(rd),)
+
+        py = show_outcome(call_submit)
+        verdict = None
+        if mc is not None and rd.get("cores") is not None and rd["cores"] > mc and not py.startswith("Err"):
+            verdict = "submit accepted cores=%r on an executor limited to %r cores" % (rd.get("cores"), mc)
+        cases.append(("ExecutorBase.submit (cores check)", dict(max_cores=mc, call=rd),
+                      "show_res (submit_cores_check %s %s)" % (pyval({"_max_cores": mc}), pyval(rd)), py, verdict))
     # ---------------- accepted configurations actually run (real code under the simulator)
     m = 60 if res.tier == "quick" else 600
     sims, metas = [], []
@@ -180,7 +200,8 @@ def build_cases(res):
         sims.append(case)
         metas.append((cfg, call_res))
     # one fixed witness per listed finding so that each is reproduced on every run
-    for cfg, call_res in [(dict(max_workers=0, block_allocation=True, disable_dependencies=True), {}),
+    for cfg, call_res in [(dict(max_cores=0), {"cores": 1}), (dict(max_cores=1), {"cores": 2}),
+                          (dict(max_workers=0, block_allocation=True, disable_dependencies=True), {}),
                           (dict(max_cores=1, disable_dependencies=True, resource_dict={"cores": 2}), {}),
                           (dict(max_cores=2, disable_dependencies=True), {"gpus_per_core": 1}),
                           (dict(backend="slurm_submission"), {})]:
